@@ -1087,6 +1087,233 @@ theorem ab2Stepper_persistent {K : Type} [Field K] [LinearOrder K] [IsStrictOrde
   · simp only [Option.some.injEq, Prod.mk.injEq] at h
     rw [← h.1]; rfl
 
+/-! ### adaptive Runge-Kutta-Fehlberg: what the accepted error estimate does and does not bound -/
+
+section rkfLocal
+variable {K : Type} [Field K] [LinearOrder K] [IsStrictOrderedRing K]
+
+/-- **local error of the returned (4th-order) state** against any reference value `x`: at most
+the error estimate plus the distance of the embedded higher-order value from `x` (every
+tableau, every rate) -/
+theorem rkf45_local_error_le_estimate_plus_fifth_general (T : RKFTab K) (f : Rate K) (dt u t x : K) :
+    |(rkf45Step T f dt u t).1 - x| ≤ |(rkf45Step T f dt u t).2| + |rkf45High T f dt u t - x| := by
+  have e : (rkf45Step T f dt u t).1 - x
+      = -(rkf45Step T f dt u t).2 + (rkf45High T f dt u t - x) := by
+    rw [rkf45_error_is_difference]; ring
+  rw [e]
+  calc |-(rkf45Step T f dt u t).2 + (rkf45High T f dt u t - x)|
+      ≤ |-(rkf45Step T f dt u t).2| + |rkf45High T f dt u t - x| := abs_add_le _ _
+    _ = |(rkf45Step T f dt u t).2| + |rkf45High T f dt u t - x| := by rw [abs_neg]
+
+/-- amplification of the returned state: `Σ_{k≤4} z^k/k! + z^5/104` -/
+def rkfR4 (z : K) : K := 1 + z + z ^ 2 / 2 + z ^ 3 / 6 + z ^ 4 / 24 + z ^ 5 / 104
+/-- amplification of the embedded higher-order value: `Σ_{k≤5} z^k/k! + z^6/2080` -/
+def rkfR5 (z : K) : K := 1 + z + z ^ 2 / 2 + z ^ 3 / 6 + z ^ 4 / 24 + z ^ 5 / 120 + z ^ 6 / 2080
+
+/-- **on `u' = a u`**, for any exact propagator `E` (e.g. `exp z`):
+`|R4(z) u - E u| ≤ |est| + |R5(z) u - E u|` with `est = (R5(z) - R4(z)) u` the quantity the code
+compares with the tolerance -/
+theorem rkf45_local_error_le_estimate_plus_fifth (a dt u t E : K) :
+    |rkfR4 (a * dt) * u - E * u|
+      ≤ |(rkf45Step rkfTab (linear a) dt u t).2| + |rkfR5 (a * dt) * u - E * u| := by
+  have h := rkf45_local_error_le_estimate_plus_fifth_general rkfTab (linear a) dt u t (E * u)
+  rw [rkf45_amp4, rkf45_amp5] at h
+  exact h
+
+theorem rkf45_est_eq (a dt u t : K) :
+    (rkf45Step rkfTab (linear a) dt u t).2 = (rkfR5 (a * dt) - rkfR4 (a * dt)) * u := by
+  rw [rkf45_estimate_amp]; simp only [rkfR4, rkfR5]; ring
+
+end rkfLocal
+
+section rkfGlobal
+open Real
+
+/-- fifth-order remainder of one step: distance of the higher-order amplification from `exp z` -/
+noncomputable def rem5 (z : ℝ) : ℝ := |rkfR5 z - exp z|
+
+/-- accepted step sizes of a trace, newest first (as the trace itself) -/
+def accDts (tr : List (Rec ℝ)) : List ℝ := (tr.filter (·.accepted)).map (·.dt)
+
+/-- value of a cell after the accepted steps `hs` (newest first) on `u' = a u` -/
+noncomputable def cellAfter (a : ℝ) : List ℝ → ℝ → ℝ
+  | [], u0 => u0
+  | h :: hs, u0 => rkfR4 (a * h) * cellAfter a hs u0
+
+/-- sum of the fifth-order remainders of the accepted steps, each weighted with the size of the
+cell before that step -/
+noncomputable def rem5Sum (a : ℝ) : List ℝ → ℝ → ℝ
+  | [], _ => 0
+  | h :: hs, u0 => rem5Sum a hs u0 + rem5 (a * h) * |cellAfter a hs u0|
+
+theorem rkf45Est_linear (a : ℝ) (us : List ℝ) (t h : ℝ) :
+    rkf45Est rkfTab (linear a) us t h
+      = (us.map (fun u => rkfR4 (a * h) * u),
+         maxAbs (us.map (fun u => (rkfR5 (a * h) - rkfR4 (a * h)) * u))) := by
+  unfold rkf45Est
+  simp only [List.map_map]
+  have e1 : (Prod.fst ∘ fun u => rkf45Step rkfTab (linear a) h u t) = fun u => rkfR4 (a * h) * u := by
+    funext u; simp only [Function.comp, rkf45_amp4, rkfR4]
+  have e2 : (Prod.snd ∘ fun u => rkf45Step rkfTab (linear a) h u t)
+      = fun u => (rkfR5 (a * h) - rkfR4 (a * h)) * u := by
+    funext u; simp only [Function.comp, rkf45_est_eq]
+  rw [e1, e2]
+
+theorem rkf_cell_step (a h t t0 tol u u0 B : ℝ) (n : Nat) (ha : a ≤ 0) (hh : 0 ≤ h)
+    (hinv : |u - exp (a * (t - t0)) * u0| ≤ (n : ℝ) * tol + B)
+    (hacc : |(rkfR5 (a * h) - rkfR4 (a * h)) * u| ≤ tol) :
+    |rkfR4 (a * h) * u - exp (a * (t + h - t0)) * u0|
+      ≤ ((n + 1 : Nat) : ℝ) * tol + (B + rem5 (a * h) * |u|) := by
+  have hloc : |rkfR4 (a * h) * u - exp (a * h) * u| ≤ tol + rem5 (a * h) * |u| := by
+    have h1 := rkf45_local_error_le_estimate_plus_fifth a h u t (exp (a * h))
+    rw [rkf45_est_eq] at h1
+    have h2 : |rkfR5 (a * h) * u - exp (a * h) * u| = rem5 (a * h) * |u| := by
+      rw [← sub_mul, abs_mul]; rfl
+    linarith
+  have hE := exp_flow_nonexpansive a h ha hh
+  have e : rkfR4 (a * h) * u - exp (a * (t + h - t0)) * u0
+      = (rkfR4 (a * h) * u - exp (a * h) * u) + exp (a * h) * (u - exp (a * (t - t0)) * u0) := by
+    have : a * (t + h - t0) = a * h + a * (t - t0) := by ring
+    rw [this, exp_add]; ring
+  have h2 : |exp (a * h) * (u - exp (a * (t - t0)) * u0)| ≤ (n : ℝ) * tol + B := by
+    rw [abs_mul]
+    calc |exp (a * h)| * |u - exp (a * (t - t0)) * u0| ≤ 1 * |u - exp (a * (t - t0)) * u0| :=
+          mul_le_mul_of_nonneg_right hE (abs_nonneg _)
+      _ ≤ (n : ℝ) * tol + B := by rw [one_mul]; exact hinv
+  rw [e]
+  calc _ ≤ |rkfR4 (a * h) * u - exp (a * h) * u| + |exp (a * h) * (u - exp (a * (t - t0)) * u0)| :=
+        abs_add_le _ _
+    _ ≤ (tol + rem5 (a * h) * |u|) + ((n : ℝ) * tol + B) := add_le_add hloc h2
+    _ = ((n + 1 : Nat) : ℝ) * tol + (B + rem5 (a * h) * |u|) := by push_cast; ring
+
+/-- invariant of the adaptive loop with the Fehlberg estimator on `u' = a u` -/
+def RkfInv (a tol t0 : ℝ) (u0s : List ℝ) (s : AState ℝ) : Prop :=
+  s.us = u0s.map (cellAfter a (accDts s.trace))
+  ∧ s.steps = (accDts s.trace).length
+  ∧ ∀ u0 ∈ u0s, |cellAfter a (accDts s.trace) u0 - exp (a * (s.t - t0)) * u0|
+      ≤ (s.steps : ℝ) * tol + rem5Sum a (accDts s.trace) u0
+
+theorem adaptiveLoop_rkf45_global_error (C : Ctl ℝ) (a t0 tEnd : ℝ) (u0s : List ℝ) (ha : a ≤ 0)
+    (htol : 0 < C.tol) (hmin : 0 < C.dtMin) :
+    ∀ (fuel : Nat) (s r : AState ℝ), RkfInv a C.tol t0 u0s s →
+      adaptiveLoop C (rkf45Est rkfTab (linear a)) tEnd fuel s = .done r → RkfInv a C.tol t0 u0s r := by
+  intro fuel
+  induction fuel with
+  | zero => intro s r _ h; simp [adaptiveLoop] at h
+  | succ n ih =>
+    intro s r hinv h
+    obtain ⟨hus, hsteps, hcells⟩ := hinv
+    unfold adaptiveLoop at h
+    simp only at h
+    set hstep := dtStep C s.dtOpt tEnd s.t with hstep_def
+    have hh : 0 ≤ hstep := le_trans hmin.le (dtStep_bounds C s.dtOpt tEnd s.t).1
+    rw [rkf45Est_linear] at h
+    simp only at h
+    generalize hE : maxAbs (List.map (fun u => (rkfR5 (a * hstep) - rkfR4 (a * hstep)) * u) s.us)
+      / C.tol = errRel at h
+    by_cases hacc : errRel ≤ ((1 : Nat) : ℝ)
+    · simp only [hacc, decide_true, ↓reduceIte] at h
+      have hcellacc : ∀ u ∈ s.us, |(rkfR5 (a * hstep) - rkfR4 (a * hstep)) * u| ≤ C.tol := by
+        intro u hu
+        have hm : (rkfR5 (a * hstep) - rkfR4 (a * hstep)) * u ∈
+            List.map (fun u => (rkfR5 (a * hstep) - rkfR4 (a * hstep)) * u) s.us :=
+          List.mem_map.mpr ⟨u, hu, rfl⟩
+        exact accepted_cells_le_tol _ C.tol htol (by rw [hE]; exact hacc) _ hm
+      -- the invariant for the state after the accepted step
+      have hnew : ∀ (d : ℝ), RkfInv a C.tol t0 u0s
+          ⟨List.map (fun u => rkfR4 (a * hstep) * u) s.us, s.t + hstep, d, s.steps + 1,
+            ⟨s.t, hstep, errRel, true⟩ :: s.trace⟩ := by
+        intro d
+        have hacc' : accDts (⟨s.t, hstep, errRel, true⟩ :: s.trace) = hstep :: accDts s.trace := by
+          simp [accDts]
+        refine ⟨?_, ?_, ?_⟩
+        · simp only [hacc', hus, List.map_map]
+          congr 1
+        · simp only [hacc', List.length_cons, hsteps]
+        · intro u0 hu0
+          simp only [hacc', cellAfter, rem5Sum]
+          have hmem : cellAfter a (accDts s.trace) u0 ∈ s.us := by
+            rw [hus]; exact List.mem_map.mpr ⟨u0, hu0, rfl⟩
+          exact rkf_cell_step a hstep s.t t0 C.tol _ u0 _ s.steps ha hh (hcells u0 hu0)
+            (hcellacc _ hmem)
+      split_ifs at h with hcont
+      · split at h
+        · exact ih _ _ (hnew _) h
+        · simp at h
+      · simp only [AOut.done.injEq] at h
+        subst h
+        exact hnew _
+    · simp only [hacc, decide_false, Bool.false_eq_true, ↓reduceIte] at h
+      have hrej : ∀ (d : ℝ), RkfInv a C.tol t0 u0s
+          ⟨s.us, s.t, d, s.steps, ⟨s.t, hstep, errRel, false⟩ :: s.trace⟩ := by
+        intro d
+        have hacc' : accDts (⟨s.t, hstep, errRel, false⟩ :: s.trace) = accDts s.trace := by
+          simp [accDts]
+        exact ⟨by simp only [hacc']; exact hus, by simp only [hacc']; exact hsteps,
+          by simp only [hacc']; exact hcells⟩
+      split_ifs at h with hcont
+      · split at h
+        · exact ih _ _ (hrej _) h
+        · simp at h
+      · simp only [AOut.done.injEq] at h
+        subst h
+        exact hrej _
+
+/-- **adaptive Runge-Kutta-Fehlberg on `u' = a u`, `a ≤ 0`, whole call of the model**: with
+`hs` the accepted step sizes of the returned trace, every cell of the returned state is the
+product of the amplifications `R4(a h_i)` of its initial value and lies within
+`(accepted steps) * tolerance + Σ_i |R5(a h_i) - exp(a h_i)| * |u_i|` of the exact solution at
+the returned time (`u_i` the cell before step `i`).  The second term is what the acceptance
+test does not control. -/
+theorem adaptive_rkf45_model_global_error (C : Ctl ℝ) (a : ℝ) (ha : a ≤ 0) (htol : 0 < C.tol)
+    (hmin : 0 < C.dtMin) (fuel : Nat) (us : List ℝ) (tStart tEnd dt0 : ℝ) (r : AState ℝ)
+    (h : adaptiveStepper C (rkf45Est rkfTab (linear a)) fuel us tStart tEnd dt0 = .done r) :
+    r.us = us.map (cellAfter a (accDts r.trace))
+    ∧ r.steps = (accDts r.trace).length
+    ∧ ∀ u0 ∈ us, |cellAfter a (accDts r.trace) u0 - exp (a * (r.t - tStart)) * u0|
+        ≤ (r.steps : ℝ) * C.tol + rem5Sum a (accDts r.trace) u0 := by
+  refine adaptiveLoop_rkf45_global_error C a tStart tEnd us ha htol hmin fuel _ r ⟨?_, ?_, ?_⟩ h
+  · simp [accDts, cellAfter]
+  · simp [accDts]
+  · intro u0 _
+    simp [accDts, cellAfter, rem5Sum]
+
+/-- **the error estimate is not a bound of the local error** (witness `z = -15/64`, i.e.
+`a = -15/16`, `dt = 1/4`, `u = 1`): the distance of the returned state from the exact
+solution is larger than the estimate the code compares with the tolerance.  So "accepted
+(estimate ≤ tol) ⇒ local error ≤ tol" is false of the model, as it is of the code. -/
+theorem rkf45_estimate_is_not_a_bound :
+    |(rkf45Step rkfTab (linear (-15 / 16 : ℝ)) (1 / 4) 1 0).2|
+      < |(rkf45Step rkfTab (linear (-15 / 16 : ℝ)) (1 / 4) 1 0).1 - exp (-15 / 16 * (1 / 4)) * 1| := by
+  rw [rkf45_est_eq, rkf45_amp4]
+  have hz : (-15 / 16 : ℝ) * (1 / 4) = -15 / 64 := by norm_num
+  rw [hz]
+  -- exp z ≥ T7(z) - |z|^8 * 9/(8! * 8)
+  have hb := Real.exp_bound (x := (-15 / 64 : ℝ)) (by rw [abs_le]; constructor <;> norm_num) (n := 8)
+    (by norm_num)
+  simp only [Finset.sum_range_succ, Finset.sum_range_zero, Nat.factorial] at hb
+  have hlow := (abs_le.mp hb).1
+  have habs : |(-15 / 64 : ℝ)| = 15 / 64 := by rw [abs_of_neg (by norm_num)]; norm_num
+  rw [habs] at hlow
+  have hest : |(rkfR5 (-15 / 64 : ℝ) - rkfR4 (-15 / 64)) * 1| = (rkfR5 (-15 / 64 : ℝ) - rkfR4 (-15 / 64)) := by
+    rw [mul_one, abs_of_pos]; simp only [rkfR4, rkfR5]; norm_num
+  rw [hest]
+  have hgap : rkfR5 (-15 / 64 : ℝ) < exp (-15 / 64) := by
+    simp only [rkfR5]
+    norm_num at hlow ⊢
+    linarith
+  have hneg : (1 + (-15 / 64 : ℝ) + (-15 / 64) ^ 2 / 2 + (-15 / 64) ^ 3 / 6 + (-15 / 64) ^ 4 / 24
+      + (-15 / 64) ^ 5 / 104) * 1 - exp (-15 / 64) * 1 < 0 := by
+    have : rkfR4 (-15 / 64 : ℝ) < rkfR5 (-15 / 64) := by simp only [rkfR4, rkfR5]; norm_num
+    simp only [rkfR4] at this
+    linarith
+  rw [abs_of_neg hneg]
+  have : rkfR4 (-15 / 64 : ℝ) = 1 + (-15 / 64 : ℝ) + (-15 / 64) ^ 2 / 2 + (-15 / 64) ^ 3 / 6
+      + (-15 / 64) ^ 4 / 24 + (-15 / 64) ^ 5 / 104 := rfl
+  linarith
+
+end rkfGlobal
+
 /-! ## constants of the step-size controller (extracted) -/
 
 section controller
